@@ -156,6 +156,19 @@ def URL.queryString (u : URL) : List Char := u.rawQuery
 def slashURL (k : SlashCtor) (u : URL) (reqURI : List Char) : Out :=
   slashMw k u.path u.queryString reqURI
 
+/-- what else a request carries: protocol version (`GET /x HTTP/1.0`), the `Host` header
+    (absent in HTTP/1.0 requests: empty), whether it came over TLS.  None of it is read by the
+    redirecting code: the `Location` is a relative reference for every client. -/
+structure Conn where
+  protoMajor : Nat := 1
+  protoMinor : Nat := 1
+  host : List Char := []
+  tls : Bool := false
+deriving DecidableEq, Repr, Inhabited
+
+def slashRequest (k : SlashCtor) (u : URL) (_ : Conn) (reqURI : List Char) : Out :=
+  slashURL k u reqURI
+
 /-! ## StaticDirectoryHandler -/
 
 def hexVal? (c : Char) : Option Nat :=
@@ -367,37 +380,51 @@ def pCtor : P SlashCtor := do
   | "D", false => pure (.removeWith ⟨skip, code⟩)
   | _, _ => failure
 
-def pURL : P URL := do
+def pURL : P (URL × Conn) := do
   let p ← str; let rp ← str; let q ← str; let fq ← bool; let fr ← str; let h ← str
-  pure ⟨p, rp, q, fq, fr, h⟩
+  let ma ← nat; let mi ← nat; let rh ← str; let tls ← bool
+  pure (⟨p, rp, q, fq, fr, h⟩, ⟨ma, mi, rh, tls⟩)
 
 def pReq : P Req := do
   let k ← tok
   match k with
   | "M" => do
-    let c ← pCtor; let url ← pURL; let u ← str
+    let c ← pCtor; let (url, _) ← pURL; let u ← str
     pure (.slash c url.path url.queryString u)
   | "S" => do
     let d ← bool; let dirs ← list str; let files ← list str; let param ← str; let up ← str
     pure (.static d ⟨dirs, files⟩ param up)
   | "P" => do
-    let c ← pCtor; let url ← pURL; let u ← str
+    let c ← pCtor; let (url, _) ← pURL; let u ← str
     let p := url.path; let q := url.queryString
     let d ← bool; let dirs ← list str; let files ← list str; let routed ← bool; let param ← str
     pure (.preStatic c p q u d ⟨dirs, files⟩ routed param)
   | _ => failure
 
 /-- lines:
-    `url = path rawPath rawQuery forceQuery fragment host`,
+    `Q n line…` — n requests, one after the other, through ONE application (the same middleware
+    instances): each line is one of the following; the answer is `n` followed by the n answers,
+    `url = path rawPath rawQuery forceQuery fragment host protoMajor protoMinor hostHeader tls`,
     `M (A|D) plain skip code url requestURI` — a slash middleware (`plain`: the
     constructor without config; `skip`: the Skipper's answer),
     `S disableUnescape ndirs dirs… nfiles files… param urlPath` — a static route,
     `P (A|D) plain skip code url requestURI disableUnescape ndirs dirs… nfiles files… routed param`
     — slash middleware in front of a static route
       → `N path requestURI` | `R code location sameHost staysOnHost` | `E` | `404` | `F` -/
+def pSeq : P (List Req) := do
+  let k ← tok
+  match k with
+  | "Q" => list pReq
+  | _ => failure
+
+/-- requests one after the other through one application.  The constructors' closures hold the
+    configuration and nothing else — no request leaves anything behind for the next — so the
+    answers are the answers to each request on its own. -/
+def runSeq (rs : List Req) : List Out := rs.map runReq
+
 def runLine (line : String) : String :=
-  match parseLine pReq line with
+  match parseLine pSeq line with
   | none => "bad-op"
-  | some r => render (encOut (runReq r))
+  | some rs => render (encList encOut (runSeq rs))
 
 end C17
